@@ -145,8 +145,10 @@ def jobs_ilusym(tier):
     return [("ilusym", "IluSym", n, t) for n, t in j]
 
 
-def generate(chk):
-    # one pool for all parts; the long jobs are submitted first
+def generate(chk, consume=None):
+    """one pool for all parts; the long jobs are submitted first.  With `consume`, the cases of every TLC run are handed over (replayed,
+    judged, counted) as soon as the run completes and are dropped afterwards: memory stays bounded by the largest run (the thorough tier
+    held 59 GB of cases before and was OOM-killed)."""
     sc = jobs_scalar(chk.tier)
     heavy = [x for x in sc if "n=4" in x[2] or "poly" in x[2] or "mean" in x[2]]
     jobs = heavy + jobs_blocked(chk.tier) + [x for x in sc if x not in heavy] + jobs_ilusym(chk.tier)
@@ -169,7 +171,11 @@ def generate(chk):
                 for c in r.printed:
                     c["_job"] = name
                     c["_part"] = part
-                cases.extend(r.printed)
+                if consume is not None:
+                    consume(part, r.printed)
+                    r.printed = None
+                else:
+                    cases.extend(r.printed)
     finally:
         for _, _, _, fn in names:
             try:
@@ -214,47 +220,62 @@ def run(chk):
     t0 = time.time()
     bins = dict(zip(HARNESS, vlib.build(list(HARNESS.values()))))
     t1 = time.time()
-    cases = generate(chk)
-    t2 = time.time()
-    chk.extra["phase_wall_s"] = {"build": round(t1 - t0, 1), "tlc": round(t2 - t1, 1)}
-    for part in HARNESS:
-        sub = [c for c in cases if c["_part"] == part]
+    st = {"n": 0, "per_part": {}, "hist": {}, "mean": {}, "chain": 0, "napply": 0, "ilufill": 0,
+          "blk_ilu": {"cases": 0, "with_fill": 0, "multiplier_does_not_commute_with_pivot_inverse": 0, "pivot_block_modified_by_elimination": 0},
+          "sym": {"patterns": 0, "pattern_level_pairs": 0, "pairs_with_rediscovery_at_lower_level": 0,
+                  "pairs_where_ignoring_the_rediscovery_changes_the_pattern": 0, "patterns_with_rediscovery": 0, "patterns_sensitive_to_rediscovery": 0},
+          "samples": {}}
+
+    def consume(part, sub):
         if not sub:
-            raise vlib.MachineryError("generator produced no cases for part " + part)
+            return
         res = vlib.run_cases(bins[part], sub, tmo=30)
         vlib.judge_results(chk, sub, res, sig, keyf=key, harness=HARNESS[part], nontrivial=nontrivial)
-        chk.extra["cases_" + part] = len(sub)
-    chk.extra["phase_wall_s"]["replay"] = round(time.time() - t2, 1)
-    chk.traces = len(cases)
-    hist = {}
-    napply = 0
-    for c in cases:
-        if c["_part"] == "ilusym":
-            continue
-        k = c["kind"] if c["_part"] == "scalar" else "%s/bs%d" % (c["kind"], c["bs"])
-        hist[k] = hist.get(k, 0) + 1
-        ntests = len(c["tests"])
-        napply += sum(ntests for s in c["steps"] if s["op"] == "AP")
-    chk.extra["cases_per_kind"] = hist
-    mean = {}
-    for c in cases:
-        if c["_part"] != "ilusym" and c["mk"] != 0:
-            k = c["kind"] if c["_part"] == "scalar" else "%s/bs%d" % (c["kind"], c["bs"])
-            mean[k] = mean.get(k, 0) + 1
-    chk.extra["cases_with_mean_filter_per_kind"] = mean
-    chk.extra["cases_with_filter_chain"] = sum(1 for c in cases if c["_part"] != "ilusym" and c["mk"] != 0 and (c["F"] or c["F2"]))
-    chk.extra["apply_calls_compared"] = napply
-    chk.extra["ilu_cases_with_fill"] = sum(1 for c in cases if c["_part"] == "scalar" and c["kind"] == "ilu" and c["ilu1"]["pat"] != c["pat"])
-    blk_ilu = [c for c in cases if c["_part"] == "blocked" and c["kind"] == "ilu"]
-    chk.extra["blocked_ilu"] = {"cases": len(blk_ilu), "with_fill": sum(1 for c in blk_ilu if c["ilupat"] != c["pat"]),
-                                "multiplier_does_not_commute_with_pivot_inverse": sum(1 for c in blk_ilu if any(c["noncomm"])),
-                                "pivot_block_modified_by_elimination": sum(1 for c in blk_ilu if c["pivmod"])}
-    sym = [c for c in cases if c["_part"] == "ilusym"]
-    chk.extra["ilusym"] = {"patterns": len(sym), "pattern_level_pairs": sum(len(c["exps"]) for c in sym),
-                           "pairs_with_rediscovery_at_lower_level": sum(sum(1 for x in c["redisc"] if x) for c in sym),
-                           "pairs_where_ignoring_the_rediscovery_changes_the_pattern": sum(sum(1 for x in c["sens"] if x) for c in sym),
-                           "patterns_with_rediscovery": sum(1 for c in sym if any(c["redisc"])),
-                           "patterns_sensitive_to_rediscovery": sum(1 for c in sym if any(c["sens"]))}
+        st["n"] += len(sub)
+        st["per_part"][part] = st["per_part"].get(part, 0) + len(sub)
+        if part not in st["samples"]:
+            st["samples"][part] = sub[len(sub) // 2: len(sub) // 2 + 2]
+        for c in sub:
+            if part == "ilusym":
+                y = st["sym"]
+                y["patterns"] += 1; y["pattern_level_pairs"] += len(c["exps"])
+                y["pairs_with_rediscovery_at_lower_level"] += sum(1 for x in c["redisc"] if x)
+                y["pairs_where_ignoring_the_rediscovery_changes_the_pattern"] += sum(1 for x in c["sens"] if x)
+                y["patterns_with_rediscovery"] += 1 if any(c["redisc"]) else 0
+                y["patterns_sensitive_to_rediscovery"] += 1 if any(c["sens"]) else 0
+                continue
+            k = c["kind"] if part == "scalar" else "%s/bs%d" % (c["kind"], c["bs"])
+            st["hist"][k] = st["hist"].get(k, 0) + 1
+            st["napply"] += sum(len(c["tests"]) for x in c["steps"] if x["op"] == "AP")
+            if c["mk"] != 0:
+                st["mean"][k] = st["mean"].get(k, 0) + 1
+                if c["F"] or c["F2"]:
+                    st["chain"] += 1
+            if part == "scalar" and c["kind"] == "ilu" and c["ilu1"]["pat"] != c["pat"]:
+                st["ilufill"] += 1
+            if part == "blocked" and c["kind"] == "ilu":
+                y = st["blk_ilu"]
+                y["cases"] += 1
+                y["with_fill"] += 1 if c["ilupat"] != c["pat"] else 0
+                y["multiplier_does_not_commute_with_pivot_inverse"] += 1 if any(c["noncomm"]) else 0
+                y["pivot_block_modified_by_elimination"] += 1 if c["pivmod"] else 0
+
+    generate(chk, consume)
+    t2 = time.time()
+    chk.extra["phase_wall_s"] = {"build": round(t1 - t0, 1), "tlc_and_replay": round(t2 - t1, 1)}
+    for part in HARNESS:
+        if not st["per_part"].get(part):
+            raise vlib.MachineryError("generator produced no cases for part " + part)
+        chk.extra["cases_" + part] = st["per_part"][part]
+    chk.traces = st["n"]
+    chk.extra["cases_per_kind"] = st["hist"]
+    chk.extra["cases_with_mean_filter_per_kind"] = st["mean"]
+    chk.extra["cases_with_filter_chain"] = st["chain"]
+    chk.extra["apply_calls_compared"] = st["napply"]
+    chk.extra["ilu_cases_with_fill"] = st["ilufill"]
+    chk.extra["blocked_ilu"] = st["blk_ilu"]
+    chk.extra["ilusym"] = st["sym"]
+    cases_by_part = st["samples"]
     chk.exhaustive = True
     chk.rule = ("every initial state of spec/Precond.tla (scalar) and spec/PrecondBlk.tla (block sizes 2 and 3) within the bounds (all sparsity "
                 "patterns containing the diagonal for n <= 3 scalars resp. blocks, bounded/sharded for n = 4 and for 3x3 blocks in the quick tier; "
@@ -266,8 +287,7 @@ def run(chk):
                 "seeded pseudo-random / crafted family of spec/IluSym.tla (n = 5..10) with its ILU(p) patterns, p = 0..4; "
                 "non-trivial = n >= 2 with off-diagonal entries (ilusym: some fill)")
     for part in HARNESS:
-        sub = [c for c in cases if c["_part"] == part]
-        for c in sub[len(sub) // 2: len(sub) // 2 + 2]:
+        for c in cases_by_part.get(part, []):
             chk.sample({k: c[k] for k in ("bs", "n", "kind", "w", "p", "m", "pat", "A1", "src") if k in c})
     chk.assumptions = ["matrices are restricted to the exact dyadic domain: power-of-two diagonals (ILU: power-of-two pivots), blocked: diagonal "
                        "(ILU: pivot) blocks with determinant +-2^k; inputs whose factorisation leaves it are not generated",
